@@ -16,7 +16,7 @@ META = dict(
                 'mixed with bool and small-int fields, are written by the real csv.dump and read back by the real csv.load(create_line_parser(dtype)) with separators , ; | tab and the two-character || and two escape characters: rows must come back equal field by field. '
                 'Numbers (z3x): the current source of parse_decimal is re-executed on z3 terms - the decimal text str() prints for a double (sign, integer digits, fraction digits, no trailing zero) is symbolic, int()/float()/len()/split() are term-building shims, '
                 'int/int division, float() and + are IEEE binary64 operations - and z3 decides whether the result can differ (value or sign) from the correctly rounded value of that text; exponent forms must take the float() fall-back. '
-                'parse_int on symbolic digit strings. File form: dump_to_file / load_from_file over a file object whose read() stops short at solver-chosen positions (a chunk boundary anywhere, including inside a quoted field).',
+                'parse_int on symbolic digit strings, and its current source on terms for integers of up to 19 digits (whatever it composes from int() / float() must give back the exact integer). File form: dump_to_file / load_from_file over a file object whose read() stops short at solver-chosen positions (a chunk boundary anywhere, including inside a quoted field).',
     bounds=dict(quick='strings: <= 3 characters in total over <= 3 fields; ints from {-20,0,7,None}; decimals: |integer part| < 1000, 1..4 fraction digits (all such doubles as printed by str()); file form: 2 rows with one symbolic character, short reads at c1 and c1+1 for every position c1 of the file (one obligation each): a one-character chunk follows a partial line',
                 thorough='strings: <= 4 characters; decimals: integer part < 10^6, 1..6 fraction digits; cvc5 cross-check of every z3x query'),
     outside='str(float) itself and float(str) (C code: modelled as correctly rounded, which is their documented contract); floats printed in exponent form beyond the fall-back check; more columns / longer strings than the bound; custom newline',
@@ -254,6 +254,82 @@ class Decimal(object):
         return dict(reproduced=not ok, detail=dict(text=text, float_value=repr(x), parse_decimal=repr(got), csv_round_trip=repr(rows)))
 
 
+class IntTerms(object):
+    """direct obligation: parse_int's current source executed on terms for a signed decimal digit string of d digits (value a 64-bit term):
+    int() of the text is the exact value, float() the correctly rounded double, int() of a double truncates - whatever the source composes
+    must give back the exact integer"""
+
+    def __init__(self, p):
+        self.p = p
+
+    def __call__(self):
+        import z3
+        from vp import z3x
+        d = self.p['digits']
+        q = z3x.Queries(cross_check=self.p.get('cross', False))
+        F64, RNE, RTZ = z3.Float64(), z3.RNE(), z3.RTZ()
+        N = z3.BitVec('N', 128)
+
+        class Text(object):
+            def __len__(self):
+                return d
+
+        class ZI(object):
+            def __init__(self, bv):
+                self.bv = bv
+
+        class ZF(object):
+            def __init__(self, t):
+                self.t = t
+
+        def zint(x):
+            if isinstance(x, Text):
+                return ZI(N)
+            if isinstance(x, ZF):
+                return ZI(z3.fpToSBV(RTZ, x.t, z3.BitVecSort(128)))
+            if isinstance(x, ZI):
+                return x
+            return int(x)
+
+        def zfloat(x):
+            if isinstance(x, Text) or isinstance(x, ZI):
+                return ZF(z3.fpSignedToFP(RNE, N if isinstance(x, Text) else x.bv, F64))
+            return float(x)
+        try:
+            fn, src = z3x.reexec(csv.parse_int, dict(int=zint, float=zfloat))
+            res = fn(Text())
+        except Exception as e:  # noqa
+            return dict(verdict='INCONCLUSIVE', reason='parse_int not executable on terms: %r' % (e,), paths=0, solver_queries=0, solver_s=0.0)
+        lim = 10 ** d
+        pre = [N > -lim, N < lim]
+        if not isinstance(res, ZI):
+            return dict(verdict='INCONCLUSIVE', reason='parse_int returned %r on terms' % (res,), paths=0, solver_queries=0, solver_s=0.0)
+        if res.bv.eq(N):
+            return dict(verdict='CONFIRMED', paths=1, solver_queries=0, solver_s=0.0, encoded=['rxsci/container/csv.py:parse_int (source re-executed on z3 terms)'])
+        r, m = q.check('parse_int %d digits' % d, pre + [res.bv != N], timeout_s=self.p.get('timeout', 120), logic='QF_BVFP')
+        out = dict(paths=1, solver_queries=q.n, solver_s=round(q.solver_s, 3), queries=q.log, encoded=['rxsci/container/csv.py:parse_int (source re-executed on z3 terms)'])
+        if r == 'unsat':
+            out.update(verdict='CONFIRMED')
+        elif r == 'sat':
+            v = m.eval(N, model_completion=True).as_signed_long()
+            rp = self.replay([str(v)])
+            out['cex'] = dict(args=[str(v)], kwargs={})
+            if rp['reproduced']:
+                out.update(verdict='REFUTED', detail=rp['detail'])
+            else:
+                out.update(verdict='INCONCLUSIVE', reason='spurious: %r does not reproduce' % (v,))
+        else:
+            out.update(verdict='INCONCLUSIVE', reason='solver answered %s' % r)
+        return out
+
+    def replay(self, args):
+        t = args[0]
+        got = csv.parse_int(t)
+        rows = _roundtrip([(int(t),)], [('v', int)], ',', '\\')
+        ok = got == int(t) and type(got) is int and rows == [(int(t),)]
+        return dict(reproduced=not ok, detail=dict(text=t, parse_int=repr(got), csv_round_trip=repr(rows)))
+
+
 class ExpForm(object):
     """exponent forms printed by str(float) must take the float() fall-back: int() of a part containing 'e' raises"""
 
@@ -290,7 +366,7 @@ class StubValid(object):
         return dict(verdict='CONFIRMED' if ok else 'INCONCLUSIVE', reason=None if ok else 'stub invalid: ShortReadFile', paths=0, solver_queries=0, solver_s=0.0)
 
 
-FAMILIES = {'strings': strings, 'parse_int_digits': parse_int_digits, 'file_form': file_form, 'decimal': Decimal, 'exp_form': ExpForm, 'stub_valid': StubValid}
+FAMILIES = {'strings': strings, 'parse_int_digits': parse_int_digits, 'file_form': file_form, 'decimal': Decimal, 'exp_form': ExpForm, 'stub_valid': StubValid, 'int_terms': IntTerms}
 
 
 def _splits(total, parts):
@@ -329,5 +405,7 @@ def obligations(tier, seed):
             obs.append(Ob(PROP, 'decimal', dict(k=k, idigits=idig, cross=not q, timeout=100 if q else 600), kind='direct', budget=120 if q else 700, group='decimal(z3x)',
                           bound=dict(fraction_digits=k, integer_digits=idig, sign='symbolic', format='binary64')))
     obs.append(Ob(PROP, 'exp_form', {}, kind='direct', budget=60, group='exp_form'))
+    for d in (9, 18, 19):
+        obs.append(Ob(PROP, 'int_terms', dict(digits=d, cross=not q), kind='direct', budget=200, group='parse_int(z3x)', bound=dict(digits=d, sign='symbolic', value='any integer of that many digits (64-bit range and beyond)')))
     obs.append(Ob(PROP, 'strings', dict(cols=['s', 's'], lens=[1, 1], sep='comma', esc='bs', _twin='reach'), budget=60, expect='refute'))
     return obs
